@@ -268,6 +268,8 @@ class Delegations:
         ds = Delegations(atype=atype)
         json_dict = json.loads(json_str)
         for k, v in json_dict.items():
+            if ABCPropertyGraphConstants.FIELD_CAPACITIES in v.keys() and ABCPropertyGraphConstants.FIELD_LABELS in v.keys():
+                raise DelegationException(msg=f'Delegation {k} mixes label and capacity details, which is not allowed')
             if ABCPropertyGraphConstants.FIELD_POOL_ID in v.keys():
                 # single element pool or pool definition
                 if v[ABCPropertyGraphConstants.FIELD_POOL_ID] == ABCPropertyGraphConstants.SINGLE_POOL_NAME:
@@ -284,6 +286,8 @@ class Delegations:
                     caporlab = Labels(**caporlabdict)
             elif ABCPropertyGraphConstants.FIELD_POOL in v.keys():
                 # pool reference
+                if ABCPropertyGraphConstants.FIELD_CAPACITIES in v.keys() or ABCPropertyGraphConstants.FIELD_LABELS in v.keys():
+                    raise DelegationException(msg=f'Delegation {k} is a pool reference and cannot carry details')
                 format = DelegationFormat.PoolReference
                 pool_id = v[ABCPropertyGraphConstants.FIELD_POOL]
                 caporlab = None
